@@ -168,6 +168,7 @@ def run(rep, progs, tier):
         "released). A7: no unaudited panic-capable construct in the loop functions and in Client::do_send / raw_command / "
         "raw_command_list; both channel failures map to CommandError::ConnectionClosed. NOT decided: that tokio wakes a "
         "receiver whose sender is dropped; behaviour under a transport that blocks forever.")
+    rep.rule("C08.events-optional", "the result of an event send never reaches a branch or the return value")
     rep.rule("C08.error-flow", "every connection error in the loop reaches a responder, a closing event or the return value")
     rep.rule("C08.who-gets-it", "with a responder in scope the error goes to that responder, otherwise to the closing event")
     rep.rule("C08.close-terminal", "after ConnectionClosed only loop exit; at most one closing event")
@@ -280,6 +281,31 @@ def one(rep, prog, cfg):
                           "when the queue is closed (last client handle dropped) and the loop never ends — the transport is not released and the event stream never ends"
                           % (tys or "nothing"))
     rep.floor("C08.error-flow", cfg + "/connection results with an error", n_err, 10)
+    # the event receiver is optional (the user may drop ConnectionEvents): the Result of an event send must not steer the
+    # loop — otherwise a dropped receiver ends the loop and the queued / in-flight request is answered with ConnectionClosed
+    n_ev = 0
+    for f in res["fns"]:
+        co = an.coroutine_of(f)
+        if co is None:
+            continue
+        fl = Flow(co)
+        for bb, t in co.calls():
+            if EVSEND not in callee_names(t):
+                continue
+            n_ev += 1
+            derived, uses = fl.forward([t["dest"]["l"]], through_call=lambda t2, ai: identity_through(t2) is not None)
+            used = 0 in derived
+            for bb3 in co.reachable():
+                t3 = co.blocks[bb3]["t"]
+                if t3["k"] == "switch" and op_local(t3["discr"]) in derived:
+                    used = True
+                for s3 in co.blocks[bb3]["s"]:
+                    if s3["k"] == "assign" and s3["rv"]["k"] == "discr" and s3["rv"]["place"]["l"] in derived:
+                        used = True
+            rep.check(not used, "C08.events-optional", "%s/%s event send result unused@%d" % (cfg, fn_name(prog, co), n_ev), co.loc(co.blocks[bb]["ts"]),
+                      "the Result of sending a connection event influences the loop's control flow or return value: with the event receiver dropped "
+                      "(which the API allows) the loop would end and pending requests would be answered with ConnectionClosed")
+    rep.floor("C08.events-optional", cfg + "/event sends", n_ev, 8)
     raii_rule(rep, prog, cfg, res)
     panic_rule(rep, prog, cfg, res)
 
